@@ -49,6 +49,11 @@ fn value_checks(m: &Movie, kind: &str, width: u32, height: u32, movie_ts: u32, m
             if &t.media_header != b"vmhd" {
                 out.push((format!("{kind}/minf[v]/media-header"), "video track without vmhd".into()));
             }
+            if let Some(e) = &t.entry {
+                if e.data_ref_index != 1 {
+                    out.push((format!("{kind}/stsd[v]/data-reference-index={}", e.data_ref_index), String::new()));
+                }
+            }
         } else if tag == "a" {
             if (t.tkhd.width_fixed, t.tkhd.height_fixed) != (0, 0) {
                 out.push((format!("{kind}/tkhd[a]/dimensions"), format!("audio track header width/height {:#x}/{:#x}", t.tkhd.width_fixed, t.tkhd.height_fixed)));
@@ -58,6 +63,19 @@ fn value_checks(m: &Movie, kind: &str, width: u32, height: u32, movie_ts: u32, m
             }
             if &t.media_header != b"smhd" {
                 out.push((format!("{kind}/minf[a]/media-header"), "audio track without smhd".into()));
+            }
+            if let Some(e) = &t.entry {
+                // fixed template fields of AudioSampleEntry (ISO 14496-12 12.2.3) and the Opus
+                // binding (Opus in ISOBMFF 4.3.1: samplerate shall be 48000 << 16)
+                if e.sample_size != 16 {
+                    out.push((format!("{kind}/stsd[a]/samplesize={}", e.sample_size), "AudioSampleEntry samplesize template value is 16".into()));
+                }
+                if &e.format == b"Opus" && e.rate_fixed != 48000u32 << 16 {
+                    out.push((format!("{kind}/stsd[a]/opus-samplerate"), format!("Opus sample entry samplerate {:#x}; the binding requires 48000<<16", e.rate_fixed)));
+                }
+                if e.data_ref_index != 1 {
+                    out.push((format!("{kind}/stsd[a]/data-reference-index={}", e.data_ref_index), String::new()));
+                }
             }
         } else {
             out.push((format!("{kind}/hdlr/handler-type"), format!("{:?}", oracle::reader::fcc(&t.handler))));
